@@ -22,7 +22,7 @@ def replay(payload):
 
 RULE = ("the five real back-end classes are run end to end against stub external solvers that implement the wire protocol of "
         "CspuzSugarInterface.java by brute force (stubs/, specs/sugar_ref.py): generated programs (C01 generator, depth <= 2) "
-        "and programs with the two native graph operators, answer-finder mode and deduction mode with random / full key sets; "
+        "and programs with the two native graph operators, plus wide programs of 1023 .. 4100 variables (declarations and key line only), answer-finder mode and deduction mode with random / full key sets; "
         "every description received is parsed by the reference parser and compared with the Solver (declarations, domains, "
         "per-constraint denotation under ALL assignments, key line, entry point); plus crafted reply texts (all listed value "
         "combinations, line orders, decided-key subsets) for each back end; distinct = distinct (program, back end, mode)")
